@@ -2,7 +2,8 @@
 On every run the current source text is translated again:
   DepState.required_increment_from                                         -> coq/C17/Gen_linspace.v      (GenEq.v)
   the command dataclasses, LinSpaceVM.change_state / step,
-  _TranslationState.set_voltage / _set_indexed_voltage                      -> coq/C17/Gen_linspace_obj.v  (GenObjEq.v)
+  _TranslationState.set_voltage / _set_indexed_voltage / _add_hold_node     -> coq/C17/Gen_linspace_obj.v  (GenObjEq.v)
+  ProgramEntry._transform_linspace_commands (hardware/awgs/base.py)         -> coq/C17/Gen_awg_base.v      (GenBaseEq.v)
 The committed proofs GenEq.v / GenObjEq.v show the generated definitions equal to (a refinement of) the model; they stop
 compiling when the source changes its behaviour, and the translator refuses source text outside its subset."""
 import os
@@ -12,7 +13,9 @@ import vlib
 
 GEN_FILE = os.path.join(vlib.COQ, 'C17', 'Gen_linspace.v')
 GEN_OBJ_FILE = os.path.join(vlib.COQ, 'C17', 'Gen_linspace_obj.v')
+GEN_BASE_FILE = os.path.join(vlib.COQ, 'C17', 'Gen_awg_base.v')
 SOURCE = 'qupulse/program/linspace.py'
+SOURCE_BASE = 'qupulse/hardware/awgs/base.py'
 
 
 def pregen(ctx):
@@ -32,6 +35,14 @@ def pregen(ctx):
         txt = py2gallina_c17.translate_objects(os.path.join(vlib.REPO, SOURCE))
         txt = txt.replace(vlib.REPO, '/repo')
         vlib.write_if_changed(GEN_OBJ_FILE, txt + '\n')
+        out.append({'name': name, 'ok': True, 'detail': 'translated'})
+    except Exception as e:
+        out.append({'name': name, 'ok': False, 'detail': 'translator refused the current source: %s' % e})
+    name = 'translate:%s::ProgramEntry._transform_linspace_commands' % SOURCE_BASE
+    try:
+        txt = py2gallina_c17.translate_transform(os.path.join(vlib.REPO, SOURCE_BASE))
+        txt = txt.replace(vlib.REPO, '/repo')
+        vlib.write_if_changed(GEN_BASE_FILE, txt + '\n')
         out.append({'name': name, 'ok': True, 'detail': 'translated'})
     except Exception as e:
         out.append({'name': name, 'ok': False, 'detail': 'translator refused the current source: %s' % e})
